@@ -3,6 +3,8 @@ import LyModel.XPath.LemmasLex
 import LyModel.XPath.LemmasLexRt
 import LyModel.XPath.LemmasParseA
 import LyModel.XPath.LemmasLexRtA
+import LyModel.XPath.LemmasLexRtT
+import LyModel.XPath.LemmasTight
 /-!
 # C08 — libyang's XPath tokenizer and parser against XPath 1.0 §3
 
@@ -139,6 +141,66 @@ theorem parse_render_abbrev_roundtrip (e : Expr) (hw : wf e = true) (hh : height
     have : ts.map ptOf = atoks e := by simpa [h, Except.toOption] using hlx
     simp [this, hp]
 
+/-- FREE SPACING: `parse (lead ++ renderG bs e) = some e` for the abbreviated text of `e` with ANY spacing `bs` that
+`Render.Spacing` admits: every gap is a (possibly EMPTY) string of blanks, and where it is empty the next byte is one that
+the tokenizer separates from the token anyway (`Render.followOk`: after a name / function name / node type / operator name
+one of `( ) [ ] / | = ! < > + * , @ ' " $`, after a Number or `.` one of these or `-`, after `/` not `/`, after `<` `>` not
+`=`, after every other token anything).  This covers `a/b[1]`, `f(x)`, `1+2`, `a -b`, `count(../k)>1` — and does not cover
+`a-b`, which is one name. -/
+theorem parse_render_free_roundtrip (e : Expr) (hw : wf e = true) (hh : height e ≤ XpConsts.maxBlockDepth)
+    (bs : List Bytes) (hb : Spacing (atoks e) bs []) (lead : Bytes) (hl : ∀ c ∈ lead, Path.isWs c = true) :
+    parse (lead ++ renderG bs e) = some e := by
+  obtain ⟨ps, hp⟩ := LemmasParseA.parseToks_rtoks e hw hh
+  have hlx := LemmasLexRtT.lex_renderG_lead e hw bs hb lead hl
+  unfold parse parseFull
+  cases h : lex (lead ++ renderG bs e) with
+  | error er => simp [h, Except.toOption] at hlx
+  | ok ts =>
+    have : ts.map ptOf = atoks e := by simpa [h, Except.toOption] using hlx
+    simp [this, hp]
+
+theorem spacing_of_spacingB : ∀ (ts : List PT) (bs : List Bytes) (more : Bytes), spacingB ts bs more = true → Spacing ts bs more := by
+  intro ts
+  induction ts with
+  | nil => intro _ _ _; trivial
+  | cons t r ih =>
+    intro bs more h
+    simp only [spacingB, Bool.and_eq_true, List.all_eq_true] at h
+    exact ⟨h.1.1, h.1.2, ih _ _ h.2⟩
+
+/-- TIGHT TEXT: `parse (renderT e) = some e` — the abbreviated text with NO blank except where the tokenizer needs one
+(`Render.tightBs`: a blank is written only where `followOk` fails, e.g. between `a` and `-b`, around `or`, before `div`). -/
+theorem parse_render_tight_roundtrip (e : Expr) (hw : wf e = true) (hh : height e ≤ XpConsts.maxBlockDepth) :
+    parse (renderT e) = some e := by
+  unfold renderT
+  split
+  · next h =>
+    simpa using parse_render_free_roundtrip e hw hh _ (spacing_of_spacingB _ _ _ h) [] (by intro c hc; cases hc)
+  · simpa using parse_render_abbrev_roundtrip e hw hh [] (by intro b hb; cases hb) [] (by intro c hc; cases hc)
+
+/-- the single-blank fallback of `renderT` is NEVER taken: on a well-formed expression the tight text is the abbreviated token
+texts with the gaps `tightBs` (`LemmasTight.spacing_tight`: token texts start with no blank and no `:`, `::` stands only after
+an axis name, hence one blank always satisfies `followOk`) -/
+theorem renderT_eq_tight (e : Expr) (hw : wf e = true) : renderT e = renderG (tightBs (atoks e)) e := by
+  unfold renderT
+  rw [LyModel.XPath.LemmasTight.spacing_tight e hw]
+  rfl
+
+/-- every gap of the tight text is empty or ONE blank, and the blank stands exactly where `followOk` fails on the tight rest -/
+theorem tight_gaps : ∀ (ts : List PT), ∀ g ∈ tightBs ts, g = [] ∨ g = [0x20]
+  | [], g, h => by simp [tightBs] at h
+  | t :: ts, g, h => by
+    simp only [tightBs, List.mem_cons] at h
+    rcases h with h | h
+    · rw [h]; split
+      · exact Or.inl rfl
+      · exact Or.inr rfl
+    · exact tight_gaps ts g h
+
+/-- non-vacuity: `count(../a[k='x'])>1` has no blank at all, `a -b` keeps exactly one -/
+example : tightBs (atoks (.bin .sub (.path .ctx [.mk .child (.name none [0x61]) []]) (.path .ctx [.mk .child (.name none [0x62]) []])))
+    = [[0x20], [], []] := by decide
+
 /-- non-vacuity: `/a/@b[. = ../c]` — its abbreviated tokens differ from the canonical ones -/
 private def sampleA : Expr :=
   .path .root [.mk .child (.name none [0x61]) [], .mk .attribute (.name none [0x62])
@@ -148,6 +210,10 @@ example : wf sampleA = true ∧ height sampleA ≤ XpConsts.maxBlockDepth ∧ (a
 /-- its abbreviated text with single blanks: `/ a / @ b [ . = .. / c ] ` -/
 example : renderAW [] sampleA = [47, 32, 97, 32, 47, 32, 64, 32, 98, 32, 91, 32, 46, 32, 61, 32, 46, 46, 32, 47, 32, 99, 32, 93, 32] := by
   decide
+/-- its tight text: `/a/@b[.=../c]`; and `a -b`, `count(../a[k='x'])>1` -/
+example : renderT sampleA = [47, 97, 47, 64, 98, 91, 46, 61, 46, 46, 47, 99, 93] := by decide
+example : renderT (.bin .sub (.path .ctx [.mk .child (.name none [0x61]) []]) (.path .ctx [.mk .child (.name none [0x62]) []])) =
+    [0x61, 0x20, 0x2d, 0x62] := by decide
 example : parse (renderAW [] sampleA) = some sampleA := by
   simpa using parse_render_abbrev_roundtrip sampleA (by decide) (by decide) [] (by intro b hb; cases hb) [] (by intro c hc; cases hc)
 
